@@ -87,6 +87,9 @@ func runC20Case(cc c20Case) (string, string) {
 			case 9:
 				peer.writeFrame(RawFrame{Fin: true, Op: 10, Payload: f.Payload})
 			case 8:
+				if cc.EchoDelayMs < 0 {
+					continue // never answers
+				}
 				time.Sleep(time.Duration(cc.EchoDelayMs) * time.Millisecond)
 				peer.writeFrame(RawFrame{Fin: true, Op: 8, Payload: f.Payload})
 			}
@@ -149,6 +152,15 @@ func runC20Case(cc c20Case) (string, string) {
 			f := RawFrame{Fin: true, Op: 2, Masked: !cc.Client, Key: [4]byte{3, 1, 4, 1}, Payload: make([]byte, 300)}
 			b.Write(f.Encode()[:40])
 			time.Sleep(10 * time.Millisecond)
+		case "peer-chatty":
+			// the peer keeps sending whole data messages, 300 ms apart, and never answers a Close frame: a close
+			// handshake must still give up after its 5 s, however lively the peer is
+			go func() {
+				for peer.writeFrame(RawFrame{Fin: true, Op: 2, Payload: []byte("chatter")}) == nil {
+					time.Sleep(300 * time.Millisecond)
+				}
+			}()
+			time.Sleep(20 * time.Millisecond)
 		case "abandon-writer":
 			if w, err := c.Writer(octx, websocket.MessageText); err == nil {
 				w.Write([]byte("unfinished")) // never closed
@@ -291,6 +303,12 @@ func runC20(ctx *runCtx) {
 	if ctx.thorough() {
 		cases = append(cases, c20Case{Client: true, Ops: []string{"closeread", "peer-partial-frame"}, End: "none", Then: "close"},
 			c20Case{Client: true, Ops: []string{"closeread", "peer-partial-frame"}, End: "none", Then: "closenow"})
+	}
+	// a peer that keeps talking and never answers the Close frame sent by the CloseRead goroutine (quick) / by a
+	// Close running in another goroutine (thorough): the handshake is bounded in total, not per frame
+	cases = append(cases, c20Case{Client: false, Ops: []string{"closeread", "peer-chatty"}, End: "none", Then: "close", EchoDelayMs: -1})
+	if ctx.thorough() {
+		cases = append(cases, c20Case{Client: true, Ops: []string{"peer-chatty"}, End: "close-in-background", Then: "close", EchoDelayMs: -1})
 	}
 	// Close with arguments that cannot be sent, as the first and only closing call
 	for _, t := range []string{"close-long-reason", "close-bad-code"} {
